@@ -731,6 +731,11 @@ def map_twin_sym(ctx: Ctx) -> None:
                 # the removal itself may bind the partner: b = twin.pop(a)
                 if isinstance(st, ast.Assign) and isinstance(st.targets[0], ast.Name) and st.targets[0].id == b and a and a in unparse(st.value):
                     partner_ok = True
+        # the key of this removal was itself obtained by removing the partner: b = twin.pop(a) … del twin[b]
+        if not partner_ok and kname and kname.isidentifier():
+            for s_ in m.fl.rdefs(kname, at):
+                if s_.value is not None and any(isinstance(c_, ast.Call) and isinstance(c_.func, ast.Attribute) and c_.func.attr == "pop" and isinstance(c_.func.value, ast.Name) and c_.func.value.id == m.twin and c_.args for c_ in ast.walk(s_.value)):
+                    partner_ok = True
         ctx.ob(
             d,
             n,
